@@ -350,7 +350,7 @@ def finish(ctx, level="proof"):
     if ctx.violations:
         # one line per property, first replay; others listed in the replay dir
         p, found, summary = sorted(ctx.violations, key=lambda v: not v[1])[0]
-        log("violation: " + summary)
+        log("violation: " + (summary if len(summary) < 600 else summary[:600] + " …[truncated; full case in the replay file]"))
         print("VIOLATION property=%s replay=%s%s" % (ctx.pid, p, "" if found else " no-failing-input-found"))
         return 1
     print("OK property=%s tier=%s seed=%s wall=%.1fs" % (ctx.pid, ctx.tier, ctx.seed, time.time() - ctx.t0))
